@@ -6,6 +6,12 @@ From V.Sys Require Import Loaders.
 
 Local Open Scope Z_scope.
 
+(* propositional glue that does not drag unused section variables into the proof terms (tauto does) *)
+Ltac ptauto := repeat match goal with H : _ /\ _ |- _ => destruct H end; repeat split; try assumption; try reflexivity.
+Ltac inl := cbn; auto 12.
+(* drop every section variable the statement does not mention *)
+Ltac clr := repeat match goal with x : _ |- _ => clear x end.
+
 (* ---------------------------------------------------------------- the logging monad *)
 Lemma result_lbind {A B} (m : L A) (f : A -> L B) b :
   result (lbind m f) = Ok b <-> exists a, result m = Ok a /\ result (f a) = Ok b.
@@ -67,7 +73,7 @@ Qed.
 Lemma count_ok_nonneg n : 0 <= n -> (count_ok n = Ok tt <-> 1 <= n <= MAX_PROOF_COUNT).
 Proof. intro Hn. rewrite count_ok_iff. lia. Qed.
 Lemma count_ok_unit n u : count_ok n = Ok u <-> count_ok n = Ok tt.
-Proof. destruct u. tauto. Qed.
+Proof. destruct u. split; intro H; exact H. Qed.
 
 (* ---------------------------------------------------------------- read_artifact_file *)
 Lemma read_oversize cap id d f :
@@ -147,6 +153,7 @@ Section VerifierProofs.
     zlen v <= MAX_VERIFIER_ARTIFACT_BYTES /\ zlen c <= MAX_VERIFIER_ARTIFACT_BYTES /\
     keccak v = pin_v /\ keccak c = pin_c /\ decode_ok v c = true.
   Proof.
+    clr.
     unfold verifier_new_from_bytes.
     split.
     - intro H. apply result_lbind in H. destruct H as ([] & H1 & H). apply result_lguard in H1.
@@ -156,7 +163,7 @@ Section VerifierProofs.
       apply result_lbind in H. destruct H as ([] & _ & H).
       apply result_lbind in H. destruct H as ([] & H4 & H). apply result_lguard in H4.
       apply result_lbind in H. destruct H as ([] & H5 & _). apply result_lguard in H5.
-      apply Z.leb_le in H1, H2. apply list_eqb_spec in H3, H4. tauto.
+      apply Z.leb_le in H1, H2. apply list_eqb_spec in H3, H4. ptauto.
     - intros (H1 & H2 & H3 & H4 & H5).
       apply Z.leb_le in H1, H2. apply list_eqb_spec in H3, H4.
       apply result_lbind. exists tt. split; [apply result_lguard; exact H1|].
@@ -173,6 +180,7 @@ Section VerifierProofs.
     zlen v > MAX_VERIFIER_ARTIFACT_BYTES \/ zlen c > MAX_VERIFIER_ARTIFACT_BYTES ->
     vbytes v c = ([], Err E_SIZE).
   Proof.
+    clr.
     intros H. unfold verifier_new_from_bytes, lbind, lguard, lift, guard. cbn [fst snd].
     destruct (Z.leb_spec (zlen v) MAX_VERIFIER_ARTIFACT_BYTES) as [Hv|Hv]; cbn [fst snd]; [|reflexivity].
     destruct (Z.leb_spec (zlen c) MAX_VERIFIER_ARTIFACT_BYTES) as [Hc|Hc]; cbn [fst snd]; [lia|reflexivity].
@@ -183,6 +191,7 @@ Section VerifierProofs.
     existsb is_hash (trace (vbytes v c)) = true ->
     zlen v <= MAX_VERIFIER_ARTIFACT_BYTES /\ zlen c <= MAX_VERIFIER_ARTIFACT_BYTES.
   Proof.
+    clr.
     intros H.
     destruct (Z.leb_spec (zlen v) MAX_VERIFIER_ARTIFACT_BYTES) as [Hv|Hv];
     destruct (Z.leb_spec (zlen c) MAX_VERIFIER_ARTIFACT_BYTES) as [Hc|Hc]; try (split; assumption);
@@ -195,6 +204,7 @@ Section VerifierProofs.
     result (vbytes v c) = Ok tt ->
     zlen v <= MAX_VERIFIER_ARTIFACT_BYTES /\ zlen c <= MAX_VERIFIER_ARTIFACT_BYTES /\ v = can_v /\ c = can_c.
   Proof.
+    clr.
     intros Pv Pc Iv Ic H. apply verifier_bytes_iff in H. destruct H as (H1 & H2 & H3 & H4 & _).
     subst pin_v pin_c. auto.
   Qed.
@@ -205,6 +215,7 @@ Section VerifierProofs.
       f_len fv <= MAX_VERIFIER_ARTIFACT_BYTES /\ f_len fc <= MAX_VERIFIER_ARTIFACT_BYTES /\
       result (vbytes (f_bytes fv) (f_bytes fc)) = Ok tt.
   Proof.
+    clr.
     unfold verifier_new_from_files. rewrite result_lbind. split.
     - intros (v & Hv & H). apply result_lbind in H. destruct H as (c & Hc & H).
       apply read_result_ok in Hv. destruct Hv as (fv & Ev & Lv & ->).
@@ -220,6 +231,7 @@ Section VerifierProofs.
     d idv = Some fv -> f_len fv > MAX_VERIFIER_ARTIFACT_BYTES ->
     vfiles d idv idc = ([EvStat idv], Err E_SIZE).
   Proof.
+    clr.
     intros E H. unfold verifier_new_from_files.
     rewrite (result_lbind_err _ _ E_SIZE); rewrite (read_oversize _ _ _ _ E H); reflexivity.
   Qed.
@@ -230,6 +242,7 @@ Section VerifierProofs.
     d idc = Some fc -> f_len fc > MAX_VERIFIER_ARTIFACT_BYTES ->
     vfiles d idv idc = ([EvStat idv; EvRead idv; EvStat idc], Err E_SIZE).
   Proof.
+    clr.
     intros Ev Lv Ec Hc. unfold verifier_new_from_files.
     rewrite (lbind_ok _ _ (f_bytes fv)) by (rewrite (read_ok _ _ _ _ Ev Lv); reflexivity).
     rewrite (read_ok _ _ _ _ Ev Lv). cbn [trace fst].
@@ -241,6 +254,7 @@ Section VerifierProofs.
     d id = Some f -> f_len f > MAX_VERIFIER_ARTIFACT_BYTES ->
     Forall (fun e => e <> EvRead id) (trace (vfiles d idv idc)).
   Proof.
+    clr.
     intros E H. unfold verifier_new_from_files.
     apply Forall_trace_lbind; [eapply read_never_oversize; eassumption|intro v].
     apply Forall_trace_lbind; [eapply read_never_oversize; eassumption|intro c].
@@ -275,6 +289,7 @@ Section AggregatorProofs.
   Lemma ensure_bytes_match_iff common vo cc cv u :
     ensure_bytes_match common vo cc cv = Ok u <-> common = cc /\ vo = cv.
   Proof.
+    clr.
     destruct u. unfold ensure_bytes_match. rewrite rbind_ok. split.
     - intros ([] & H1 & H). apply rbind_ok in H. destruct H as ([] & H2 & _).
       apply guard_ok in H1, H2. apply list_eqb_spec in H1, H2. auto.
@@ -284,14 +299,15 @@ Section AggregatorProofs.
 
   Lemma load_canonical_leaf_iff common vo u :
     ld_leaf common vo = Ok u <-> common = leaf_c /\ vo = leaf_v.
-  Proof. apply ensure_bytes_match_iff. Qed.
+  Proof. clr. apply ensure_bytes_match_iff. Qed.
 
   Lemma load_canonical_private_batch_iff common vo n u : 0 <= n ->
     (ld_pb common vo n = Ok u <->
      1 <= n <= MAX_PROOF_COUNT /\ common = fst (canon_pb n) /\ vo = snd (canon_pb n)).
   Proof.
+    clr.
     intro Hn. unfold load_canonical_private_batch. rewrite rbind_ok. split.
-    - intros ([] & H1 & H). apply (count_ok_nonneg n Hn) in H1. apply ensure_bytes_match_iff in H. tauto.
+    - intros ([] & H1 & H). apply (count_ok_nonneg n Hn) in H1. apply ensure_bytes_match_iff in H. ptauto.
     - intros (H1 & H). exists tt. split; [apply (count_ok_nonneg n Hn); exact H1|apply ensure_bytes_match_iff; exact H].
   Qed.
 
@@ -306,6 +322,7 @@ Section AggregatorProofs.
        reser_c (f_bytes fc) = Some (fst (canon_pub m n)) /\
        reser_v (f_bytes fv) = Some (snd (canon_pub m n))).
   Proof.
+    clr.
     intros Hm Hn. unfold load_public_batch, CAP. split.
     - intro H.
       apply result_lbind in H. destruct H as (c & Hc & H). apply read_result_ok in Hc. destruct Hc as (fc & Ec & Lc & ->).
@@ -317,7 +334,7 @@ Section AggregatorProofs.
       apply result_lbind in H. destruct H as ([] & H3 & H). apply result_lguard in H3.
       apply result_lbind in H. destruct H as ([] & H4 & H). apply result_lguard in H4. apply list_eqb_spec in H4.
       apply result_lbind in H. destruct H as ([] & H5 & _). apply result_lguard in H5. apply list_eqb_spec in H5.
-      exists fc, fv. subst rc rv. tauto.
+      exists fc, fv. subst rc rv. ptauto.
     - intros (fc & fv & Ec & Ev & Lc & Lv & H1 & H2 & H3 & H4 & H5).
       apply result_lbind. exists (f_bytes fc). split; [apply read_result_ok; exists fc; auto|].
       apply result_lbind. exists (f_bytes fv). split; [apply read_result_ok; exists fv; auto|].
@@ -339,6 +356,7 @@ Section AggregatorProofs.
      exists f, d F_CONFIG = Some f /\ f_len f <= MAX_ARTIFACT_FILE_BYTES /\ parse_config (f_bytes f) = Some cfg /\
        1 <= fst cfg <= MAX_PROOF_COUNT /\ match snd cfg with Some m => 1 <= m <= MAX_PROOF_COUNT | None => True end).
   Proof.
+    clr.
     intro WF. unfold load_config, CAP. split.
     - intro H.
       apply result_lbind in H. destruct H as (b & Hb & H). apply read_result_ok in Hb. destruct Hb as (f & Ef & Lf & ->).
@@ -357,6 +375,7 @@ Section AggregatorProofs.
   Qed.
 
   Hypothesis parse_wf : forall b c, parse_config b = Some c -> cfg_nonneg c.
+  Ltac clr0 := repeat match goal with x : _ |- _ => lazymatch x with parse_wf => fail | _ => clear x end end.
 
   (* ---- PrivateBatchProver::new_from_binaries_dir *)
   Lemma private_prover_iff d :
@@ -368,6 +387,7 @@ Section AggregatorProofs.
       f_len fc <= MAX_ARTIFACT_FILE_BYTES /\ f_len fv <= MAX_ARTIFACT_FILE_BYTES /\ f_len fd <= MAX_ARTIFACT_FILE_BYTES /\
       f_bytes fc = leaf_c /\ f_bytes fv = leaf_v /\ leaf_template_ok (f_bytes fd) = true.
   Proof using Type parse_wf.
+    clr0.
     unfold private_prover_from_dir, CAP. split.
     - intro H.
       apply result_lbind in H. destruct H as (cfg & Hcfg & H). apply (load_config_ok d cfg parse_wf) in Hcfg.
@@ -378,7 +398,7 @@ Section AggregatorProofs.
       apply result_lbind in H. destruct H as ([] & _ & H).
       apply result_lbind in H. destruct H as ([] & H1 & H). rewrite result_lift in H1. apply load_canonical_leaf_iff in H1.
       apply result_lbind in H. destruct H as ([] & H2 & _). apply result_lguard in H2.
-      exists fcfg, cfg, fc, fv, fd. tauto.
+      exists fcfg, cfg, fc, fv, fd. ptauto.
     - intros (fcfg & cfg & fc & fv & fd & E0 & L0 & P0 & C1 & C2 & Ec & Ev & Ed & Lc & Lv & Ld & B1 & B2 & T).
       apply result_lbind. exists cfg. split; [apply (load_config_ok d cfg parse_wf); exists fcfg; auto|].
       apply result_lbind. exists (f_bytes fc). split; [apply read_result_ok; exists fc; auto|].
@@ -400,6 +420,7 @@ Section AggregatorProofs.
       f_len fc <= MAX_ARTIFACT_FILE_BYTES /\ f_len fv <= MAX_ARTIFACT_FILE_BYTES /\ f_len fd <= MAX_ARTIFACT_FILE_BYTES /\
       f_bytes fc = fst (canon_pb n) /\ f_bytes fv = snd (canon_pb n) /\ pb_template_ok n (f_bytes fd) = true.
   Proof using Type parse_wf.
+    clr0.
     unfold public_prover_from_dir, CAP. split.
     - intro H.
       apply result_lbind in H. destruct H as (cfg & Hcfg & H). apply (load_config_ok d cfg parse_wf) in Hcfg.
@@ -414,7 +435,7 @@ Section AggregatorProofs.
       apply result_lbind in H. destruct H as ([] & H1 & H). rewrite result_lift in H1.
       apply load_canonical_private_batch_iff in H1; [|lia].
       apply result_lbind in H. destruct H as ([] & H2 & _). apply result_lguard in H2.
-      exists fcfg, n, m, fc, fv, fd. tauto.
+      exists fcfg, n, m, fc, fv, fd. ptauto.
     - intros (fcfg & n & m & fc & fv & fd & E0 & L0 & P0 & C1 & C2 & Ec & Ev & Ed & Lc & Lv & Ld & B1 & B2 & T).
       apply result_lbind. exists (n, Some m). split; [apply (load_config_ok d _ parse_wf); exists fcfg; cbn [fst snd]; auto|].
       cbn [fst snd].
@@ -444,6 +465,7 @@ Section AggregatorProofs.
       reser_c (f_bytes fpc) = Some (fst (canon_pub m n)) /\ reser_v (f_bytes fpv) = Some (snd (canon_pub m n)) /\
       pb_template_ok n (f_bytes fd) = true.
   Proof using Type parse_wf.
+    clr0.
     unfold aggregator_new, CAP. split.
     - intro H.
       apply result_lbind in H. destruct H as (cfg & Hcfg & H). apply (load_config_ok d cfg parse_wf) in Hcfg.
@@ -458,7 +480,7 @@ Section AggregatorProofs.
       destruct H2 as (fpc & fpv & Epc & Epv & Lpc & Lpv & _ & _ & K1 & K2 & K3).
       apply result_lbind in H. destruct H as (dp & Hd & H). apply read_result_ok in Hd. destruct Hd as (fd & Ed & Ld & ->).
       apply result_lbind in H. destruct H as ([] & H3 & _). apply result_lguard in H3.
-      exists fcfg, n, m, fc, fv, fd, fpc, fpv. tauto.
+      exists fcfg, n, m, fc, fv, fd, fpc, fpv. ptauto.
     - intros (fcfg & n & m & fc & fv & fd & fpc & fpv & E0 & L0 & P0 & C1 & C2 & Ec & Ev & Ed & Epc & Epv &
               Lc & Lv & Ld & Lpc & Lpv & B1 & B2 & K1 & K2 & K3 & T).
       apply result_lbind. exists (n, Some m). split; [apply (load_config_ok d _ parse_wf); exists fcfg; cbn [fst snd]; auto|].
@@ -469,7 +491,7 @@ Section AggregatorProofs.
       apply result_lbind. exists tt. split.
       { rewrite result_lift. apply load_canonical_private_batch_iff; [lia|]. auto. }
       apply result_lbind. exists tt. split.
-      { apply load_public_batch_iff; [lia|lia|]. exists fpc, fpv. tauto. }
+      { apply load_public_batch_iff; [lia|lia|]. exists fpc, fpv. ptauto. }
       apply result_lbind. exists (f_bytes fd). split; [apply read_result_ok; exists fd; auto|].
       apply result_lbind. exists tt. split; [apply result_lguard; exact T|reflexivity].
   Qed.
@@ -482,13 +504,14 @@ Section AggregatorProofs.
        f_len fc <= MAX_ARTIFACT_FILE_BYTES /\ f_len fv <= MAX_ARTIFACT_FILE_BYTES /\
        f_bytes fc = leaf_c /\ f_bytes fv = leaf_v).
   Proof.
+    clr.
     intro Hn. unfold gen_private_batch, CAP. split.
     - intro H.
       apply result_lbind in H. destruct H as ([] & H0 & H). rewrite result_lift in H0. apply (count_ok_nonneg n Hn) in H0.
       apply result_lbind in H. destruct H as (c & Hc & H). apply read_result_ok in Hc. destruct Hc as (fc & Ec & Lc & ->).
       apply result_lbind in H. destruct H as (v & Hv & H). apply read_result_ok in Hv. destruct Hv as (fv & Ev & Lv & ->).
       apply result_lbind in H. destruct H as ([] & H1 & _). rewrite result_lift in H1. apply load_canonical_leaf_iff in H1.
-      split; [exact H0|]. exists fc, fv. tauto.
+      split; [exact H0|]. exists fc, fv. ptauto.
     - intros (H0 & fc & fv & Ec & Ev & Lc & Lv & B1 & B2).
       apply result_lbind. exists tt. split; [rewrite result_lift; apply (count_ok_nonneg n Hn); exact H0|].
       apply result_lbind. exists (f_bytes fc). split; [apply read_result_ok; exists fc; auto|].
@@ -503,6 +526,7 @@ Section AggregatorProofs.
        f_len fc <= MAX_ARTIFACT_FILE_BYTES /\ f_len fv <= MAX_ARTIFACT_FILE_BYTES /\
        f_bytes fc = fst (canon_pb n) /\ f_bytes fv = snd (canon_pb n)).
   Proof.
+    clr.
     intros Hm Hn. unfold gen_public_batch, CAP. split.
     - intro H.
       apply result_lbind in H. destruct H as ([] & H0 & H). rewrite result_lift in H0. apply (count_ok_nonneg m Hm) in H0.
@@ -511,7 +535,7 @@ Section AggregatorProofs.
       apply result_lbind in H. destruct H as (v & Hv & H). apply read_result_ok in Hv. destruct Hv as (fv & Ev & Lv & ->).
       apply result_lbind in H. destruct H as ([] & H1 & _). rewrite result_lift in H1.
       apply load_canonical_private_batch_iff in H1; [|exact Hn].
-      split; [exact H0|]. split; [exact H0'|]. exists fc, fv. tauto.
+      split; [exact H0|]. split; [exact H0'|]. exists fc, fv. ptauto.
     - intros (H0 & H0' & fc & fv & Ec & Ev & Lc & Lv & B1 & B2).
       apply result_lbind. exists tt. split; [rewrite result_lift; apply (count_ok_nonneg m Hm); exact H0|].
       apply result_lbind. exists tt. split; [rewrite result_lift; apply (count_ok_nonneg n Hn); exact H0'|].
@@ -525,7 +549,7 @@ Section AggregatorProofs.
   (* Every event of every loader is a stat or a read of one of the listed file ids: compositional. *)
   Ltac trace_forall :=
     repeat first
-      [ apply read_trace_ids; (split; [cbn; tauto|reflexivity])
+      [ apply read_trace_ids; (split; [inl|reflexivity])
       | apply Forall_trace_lbind; [|intros ?]
       | rewrite trace_lift; constructor
       | rewrite trace_lguard; constructor
@@ -535,14 +559,14 @@ Section AggregatorProofs.
     In (ev_id e) ids /\ is_hash e = false.
 
   Lemma load_config_touches d : Forall (touches_only [F_CONFIG]) (trace (ld_cfg d)).
-  Proof. unfold load_config, touches_only. trace_forall. Qed.
+  Proof. clr. unfold load_config, touches_only. trace_forall. Qed.
 
   Lemma load_public_batch_touches d m n :
     Forall (touches_only [F_PUB_COMMON; F_PUB_VERIFIER]) (trace (ld_pub d m n)).
-  Proof. unfold load_public_batch, touches_only. trace_forall. Qed.
+  Proof. clr. unfold load_public_batch, touches_only. trace_forall. Qed.
 
   Lemma Forall_touches_mono ids ids' t : incl ids ids' -> Forall (touches_only ids) t -> Forall (touches_only ids') t.
-  Proof. intros Hi H. eapply Forall_impl; [|exact H]. intros e [H1 H2]. split; [apply Hi; exact H1|exact H2]. Qed.
+  Proof. clr. intros Hi H. eapply Forall_impl; [|exact H]. intros e [H1 H2]. split; [apply Hi; exact H1|exact H2]. Qed.
 
   Definition PRIVATE_PROVER_FILES := [F_CONFIG; F_COMMON; F_VERIFIER; F_DUMMY].
   Definition PUBLIC_PROVER_FILES := [F_CONFIG; F_PB_COMMON; F_PB_VERIFIER; F_PB_DUMMY].
@@ -550,40 +574,44 @@ Section AggregatorProofs.
 
   Lemma private_prover_touches d : Forall (touches_only PRIVATE_PROVER_FILES) (trace (priv_prover d)).
   Proof.
+    clr.
     unfold private_prover_from_dir.
     apply Forall_trace_lbind.
-    { eapply Forall_touches_mono; [|apply load_config_touches]. intros x [<-|[]]. cbn. tauto. }
+    { eapply Forall_touches_mono; [|apply load_config_touches]. intros x [<-|[]]. inl. }
     intros cfg. unfold touches_only, PRIVATE_PROVER_FILES. trace_forall.
   Qed.
 
   Lemma public_prover_touches d : Forall (touches_only PUBLIC_PROVER_FILES) (trace (pub_prover d)).
   Proof.
+    clr.
     unfold public_prover_from_dir.
     apply Forall_trace_lbind.
-    { eapply Forall_touches_mono; [|apply load_config_touches]. intros x [<-|[]]. cbn. tauto. }
+    { eapply Forall_touches_mono; [|apply load_config_touches]. intros x [<-|[]]. inl. }
     intros cfg. unfold touches_only, PUBLIC_PROVER_FILES. trace_forall.
   Qed.
 
   Lemma aggregator_new_touches d : Forall (touches_only AGGREGATOR_FILES) (trace (agg_new d)).
   Proof.
+    clr.
     unfold aggregator_new.
     apply Forall_trace_lbind.
-    { eapply Forall_touches_mono; [|apply load_config_touches]. intros x [<-|[]]. cbn. tauto. }
+    { eapply Forall_touches_mono; [|apply load_config_touches]. intros x [<-|[]]. inl. }
     intros cfg.
     apply Forall_trace_lbind; [rewrite trace_lift; constructor|intros m].
-    apply Forall_trace_lbind; [apply read_trace_ids; split; cbn; tauto|intros c].
-    apply Forall_trace_lbind; [apply read_trace_ids; split; cbn; tauto|intros v].
+    apply Forall_trace_lbind; [apply read_trace_ids; split; inl|intros c].
+    apply Forall_trace_lbind; [apply read_trace_ids; split; inl|intros v].
     apply Forall_trace_lbind; [rewrite trace_lift; constructor|intros ?].
     apply Forall_trace_lbind.
-    { eapply Forall_touches_mono; [|apply load_public_batch_touches]. intros x [<-|[<-|[]]]; cbn; tauto. }
+    { eapply Forall_touches_mono; [|apply load_public_batch_touches]. intros x [<-|[<-|[]]]; inl. }
     intros ?.
-    apply Forall_trace_lbind; [apply read_trace_ids; split; cbn; tauto|intros dp].
+    apply Forall_trace_lbind; [apply read_trace_ids; split; inl|intros dp].
     apply Forall_trace_lbind; [rewrite trace_lguard; constructor|intros ?]. constructor.
   Qed.
 
   Lemma touches_not_prover ids e :
     forallb (fun i => negb (is_prover_id i)) ids = true -> touches_only ids e -> is_prover_id (ev_id e) = false.
   Proof.
+    clr.
     intros Hall [Hin _]. rewrite forallb_forall in Hall. specialize (Hall _ Hin).
     destruct (is_prover_id (ev_id e)); [discriminate|reflexivity].
   Qed.
@@ -595,6 +623,7 @@ Section AggregatorProofs.
     Forall (fun e => is_prover_id (ev_id e) = false) (trace (agg_new d)) /\
     trace leaf_prover_new = [].
   Proof.
+    clr.
     repeat split.
     - eapply Forall_impl; [|apply private_prover_touches]. intro e. apply touches_not_prover. reflexivity.
     - eapply Forall_impl; [|apply public_prover_touches]. intro e. apply touches_not_prover. reflexivity.
@@ -607,41 +636,44 @@ Section AggregatorProofs.
   Ltac agree_tac H :=
     repeat first
       [ reflexivity
-      | apply read_agree; apply H; cbn; tauto
+      | apply read_agree; apply H; inl
       | apply lbind_ext; [|intros ?] ].
 
   Lemma load_config_agree d d' : dir_agree [F_CONFIG] d d' -> ld_cfg d = ld_cfg d'.
-  Proof. intro H. unfold load_config. agree_tac H. Qed.
+  Proof. clr. intro H. unfold load_config. agree_tac H. Qed.
 
   Lemma load_public_batch_agree d d' m n : dir_agree [F_PUB_COMMON; F_PUB_VERIFIER] d d' -> ld_pub d m n = ld_pub d' m n.
-  Proof. intro H. unfold load_public_batch. agree_tac H. Qed.
+  Proof. clr. intro H. unfold load_public_batch. agree_tac H. Qed.
 
   Lemma dir_agree_incl ids ids' d d' : incl ids ids' -> dir_agree ids' d d' -> dir_agree ids d d'.
-  Proof. intros Hi H i Hin. apply H. apply Hi. exact Hin. Qed.
+  Proof. clr. intros Hi H i Hin. apply H. apply Hi. exact Hin. Qed.
 
   Lemma private_prover_agree d d' : dir_agree PRIVATE_PROVER_FILES d d' -> priv_prover d = priv_prover d'.
   Proof.
+    clr.
     intro H. unfold private_prover_from_dir.
-    apply lbind_ext; [apply load_config_agree; eapply dir_agree_incl; [|exact H]; intros x [<-|[]]; cbn; tauto|intros ?].
+    apply lbind_ext; [apply load_config_agree; eapply dir_agree_incl; [|exact H]; intros x [<-|[]]; inl|intros ?].
     unfold PRIVATE_PROVER_FILES in H. agree_tac H.
   Qed.
 
   Lemma public_prover_agree d d' : dir_agree PUBLIC_PROVER_FILES d d' -> pub_prover d = pub_prover d'.
   Proof.
+    clr.
     intro H. unfold public_prover_from_dir.
-    apply lbind_ext; [apply load_config_agree; eapply dir_agree_incl; [|exact H]; intros x [<-|[]]; cbn; tauto|intros ?].
+    apply lbind_ext; [apply load_config_agree; eapply dir_agree_incl; [|exact H]; intros x [<-|[]]; inl|intros ?].
     unfold PUBLIC_PROVER_FILES in H. agree_tac H.
   Qed.
 
   Lemma aggregator_new_agree d d' : dir_agree AGGREGATOR_FILES d d' -> agg_new d = agg_new d'.
   Proof.
+    clr.
     intro H. unfold aggregator_new.
-    apply lbind_ext; [apply load_config_agree; eapply dir_agree_incl; [|exact H]; intros x [<-|[]]; cbn; tauto|intros ?].
+    apply lbind_ext; [apply load_config_agree; eapply dir_agree_incl; [|exact H]; intros x [<-|[]]; inl|intros ?].
     apply lbind_ext; [reflexivity|intros ?].
-    apply lbind_ext; [apply read_agree; apply H; cbn; tauto|intros ?].
-    apply lbind_ext; [apply read_agree; apply H; cbn; tauto|intros ?].
+    apply lbind_ext; [apply read_agree; apply H; inl|intros ?].
+    apply lbind_ext; [apply read_agree; apply H; inl|intros ?].
     apply lbind_ext; [reflexivity|intros ?].
-    apply lbind_ext; [apply load_public_batch_agree; eapply dir_agree_incl; [|exact H]; intros x [<-|[<-|[]]]; cbn; tauto|intros ?].
+    apply lbind_ext; [apply load_public_batch_agree; eapply dir_agree_incl; [|exact H]; intros x [<-|[<-|[]]]; inl|intros ?].
     unfold AGGREGATOR_FILES in H. agree_tac H.
   Qed.
 
@@ -662,6 +694,7 @@ Section AggregatorProofs.
     (forall n, Forall (fun e => e <> EvRead id) (trace (gen_pb d n))) /\
     (forall m n, Forall (fun e => e <> EvRead id) (trace (gen_pub d m n))).
   Proof.
+    clr.
     intros E H. unfold CAP in *.
     assert (Hcfg : Forall (fun e => e <> EvRead id) (trace (ld_cfg d))).
     { unfold load_config, CAP. never_tac E H. }
@@ -685,6 +718,7 @@ Section AggregatorProofs.
     d F_COMMON = Some f -> f_len f > MAX_ARTIFACT_FILE_BYTES ->
     gen_pb d n = ([EvStat F_COMMON], Err E_SIZE).
   Proof.
+    clr.
     intros Hn E H. unfold gen_private_batch, CAP.
     rewrite (lbind_ok _ _ tt) by (rewrite result_lift; exact Hn). rewrite trace_lift. cbn [app].
     rewrite (result_lbind_err _ _ E_SIZE) by (rewrite (read_oversize _ _ _ _ E H); reflexivity).
